@@ -9,6 +9,6 @@ OBS = [
  Ob(['C08'], 'mp_misc', 'mp', 'harness/mp_ser.c', 'h_mp_misc', unwind=18, desc='nil / true / false', bound='all', **K),
  Ob(['C08', 'C07'], 'mp_str', 'mp', 'harness/mp_ser.c', 'h_mp_str', unwind=18, desc='visit(JsonString): fixstr/str8/str16/str32 ladder, count = header + n, payload verbatim', bound='length symbolic over 0..2^32-1, first 4 payload bytes symbolic', **K),
  Ob(['C08', 'C07'], 'mp_raw', 'mp', 'harness/mp_ser.c', 'h_mp_raw', unwind=18, desc='visit(RawString): bin/ext/serialized bytes verbatim', bound='<= 4 symbolic bytes', **K),
- Ob(['C08'], 'mp_array_hdr', 'mp', 'harness/mp_ser.c', 'h_mp_array_hdr', unwind=18, desc='array header ladder 15/16, 65535/65536 (size cut, symbolic)', bound='count symbolic over 0..2^32-1', **K),
- Ob(['C08'], 'mp_object_hdr', 'mp', 'harness/mp_ser.c', 'h_mp_object_hdr', unwind=18, desc='map header ladder 15/16, 65535/65536 (size cut, symbolic)', bound='count symbolic over 0..2^31-1', **K),
+ Ob(['C08', 'C07'], 'mp_array_hdr', 'mp', 'harness/mp_ser.c', 'h_mp_array_hdr', unwind=18, desc='array header ladder 15/16, 65535/65536 (size cut, symbolic)', bound='count symbolic over 0..2^32-1', **K),
+ Ob(['C08', 'C07'], 'mp_object_hdr', 'mp', 'harness/mp_ser.c', 'h_mp_object_hdr', unwind=18, desc='map header ladder 15/16, 65535/65536 (size cut, symbolic)', bound='count symbolic over 0..2^31-1', **K),
 ]
